@@ -17,7 +17,7 @@ use std::io::Write;
 use webgraph::utils::Granularity;
 use webgraph_algo::rank::pagerank::{Mode, PageRank, preds};
 
-const ITER_CAP: usize = 200_000;
+const ITER_CAP: usize = 20_000;
 
 fn transpose(g: &Graph) -> Graph {
     let mut t: Graph = vec![Vec::new(); g.len()];
